@@ -107,6 +107,8 @@ def rule_r22_partition(ctx, prog, rule="R22", body=None):
     b = inline_calls(prog, b, helper_filter(prog))
     from .facts import eliminate_static_refs
     b = eliminate_static_refs(prog, b)
+    from .facts import thread_constant_flags
+    b = thread_constant_flags(prog, b)
     pv_local, pidx = pivot_local_of(b)
     if pv_local is None:
         ctx.ob(rule, "partition_mut/pivot-value", False, b.where(), "anchor missing: `self[pivot_index].clone()` not found", what="anchor missing")
@@ -189,6 +191,8 @@ def rule_r21_compaction(ctx, prog, rule="R21", body=None):
     b = inline_calls(prog, b, helper_filter(prog))
     from .facts import eliminate_static_refs
     b = eliminate_static_refs(prog, b)
+    from .facts import thread_constant_flags
+    b = thread_constant_flags(prog, b)
     za = ZoneAnalysis(b, lambda st, z: None)
     za.run()
     sa = SegmentAnalysis(b, za, nan_pred)
@@ -270,6 +274,8 @@ def rule_r24_selection(ctx, prog, rule="R24"):
     b = inline_calls(prog, b, helper_filter(prog))
     from .facts import eliminate_static_refs
     b = eliminate_static_refs(prog, b)
+    from .facts import thread_constant_flags
+    b = thread_constant_flags(prog, b)
     sp = SelectionProof(prog, b, part.key, {b.key})
     try:
         res = sp.prove(ipar[0])
@@ -365,6 +371,8 @@ def rule_r25_bulk_selection(ctx, prog, rule="R25"):
     b = inline_calls(prog, b, helper_filter(prog))
     from .facts import eliminate_static_refs
     b = eliminate_static_refs(prog, b)
+    from .facts import thread_constant_flags
+    b = thread_constant_flags(prog, b)
     bp = BulkProof(prog, b, part.key)
     if None in (bp.p_arr, bp.p_idx, bp.p_val):
         ctx.ob(rule, "bulk/parameters", False, b.where(), "anchor missing: (array view, index slice, value slice) parameters", what="anchor missing")
